@@ -4,7 +4,10 @@
 // It must not import the library.
 package vrt
 
-import "fmt"
+import (
+	"fmt"
+	"reflect"
+)
 
 // ---------------------------------------------------------------------------------------------
 // work and depth counters (single-threaded use, or per scheduled thread under the scheduler)
@@ -108,7 +111,7 @@ func ConvB(b []byte) []byte {
 // Acc is inserted before every statement that touches a package-level variable.
 func Acc(site, varID int, write bool) {
 	if sched != nil {
-		sched.access(site, varID, write)
+		sched.access(site, varID, write, false)
 	}
 }
 
@@ -118,6 +121,49 @@ var VarNames []string
 // StaticWriteSites is filled by the generated code: for each variable the number of write sites
 // outside package initialisation.
 var StaticWriteSites []int
+
+// AccRecv reports an access through a method receiver: if the receiver is (the address or the pointer value
+// of) one of the candidate package-level variables, it is an access to that variable - made at the statement
+// that touches the object, inside whatever critical section the method has entered.
+func AccRecv(site int, recv any, write bool, cands ...int) {
+	if sched == nil || len(StateVars) == 0 {
+		return
+	}
+	rp := reflect.ValueOf(recv)
+	if rp.Kind() != reflect.Ptr || rp.IsNil() {
+		return
+	}
+	for _, id := range cands {
+		sv := stateVarByID(id)
+		if sv == nil {
+			continue
+		}
+		pv := reflect.ValueOf(sv.Ptr) // pointer to the variable
+		if pv.Pointer() == rp.Pointer() {
+			Acc(site, id, write)
+			return
+		}
+		if ev := pv.Elem(); ev.Kind() == reflect.Ptr && !ev.IsNil() && ev.Pointer() == rp.Pointer() {
+			sched.access(site, id, write, true)
+			return
+		}
+	}
+}
+
+var stateVarIdx map[string]*StateVar
+
+func stateVarByID(id int) *StateVar {
+	if id < 0 || id >= len(VarNames) {
+		return nil
+	}
+	if stateVarIdx == nil {
+		stateVarIdx = map[string]*StateVar{}
+		for i := range StateVars {
+			stateVarIdx[StateVars[i].Name] = &StateVars[i]
+		}
+	}
+	return stateVarIdx[VarNames[id]]
+}
 
 // CatAssign charges `s += x` by the size of the resulting string and returns x.
 func CatAssign(s, x string) string {
